@@ -346,6 +346,80 @@ def _check_dispatcher(ctx: Ctx, m: pf.Module, mic: pf.Module, name: str, concret
                 and isinstance(r.value.func.value, ast.Name) and [pf.nsrc(a) for a in r.value.args] == [data]:
             return r.value.func.value.id
         return None
+    if _table_dispatcher(ctx, m, fn, name, data, typ_var, concrete, covered):
+        pass
+    else:
+        _chain_dispatcher(ctx, m, fn, name, data, tested_class, returned_class, covered)
+    _dispatcher_tail(ctx, m, mic, fn, name, concrete, covered)
+
+
+def _table_dispatcher(ctx: Ctx, m: pf.Module, fn: pf.FuncDef, name: str, data: str, typ_var: str, concrete: List[ast.ClassDef], covered: Dict[str, int]) -> bool:
+    """Recognise  TABLE = {C.TYPE: C.from_dict ...};  return TABLE[typ](data)  (optionally memoised).  Returns False if the function is not table driven."""
+    calls = [c for c in ast.walk(fn) if isinstance(c, ast.Call) and isinstance(c.func, ast.Subscript) and isinstance(c.func.value, ast.Name)
+             and pf.nsrc(c.func.slice) == typ_var and [pf.nsrc(a) for a in c.args] == [data]]
+    if len(calls) != 1:
+        return False
+    table = calls[0].func.value.id  # type: ignore[union-attr]
+    tv = m.global_assign(table)
+    classes: List[str] = []
+    if isinstance(tv, ast.DictComp) and len(tv.generators) == 1 and isinstance(tv.generators[0].iter, (ast.Tuple, ast.List)):
+        v = pf.nsrc(tv.generators[0].target)
+        ctx.need(pf.nsrc(tv.key) == f'{v}.TYPE' and pf.nsrc(tv.value) == f'{v}.from_dict', f'{name}: table {table} is not {{C.TYPE: C.from_dict for C in (...)}}')
+        classes = [pf.nsrc(x) for x in tv.generators[0].iter.elts]
+    elif isinstance(tv, ast.Dict):
+        for k, v in zip(tv.keys, tv.values):
+            ctx.need(k is not None and pf.nsrc(k).endswith('.TYPE') and pf.nsrc(v).endswith('.from_dict'), f'{name}: table {table} entry {pf.nsrc(k) if k else None} not recognised')
+            kc, vc = pf.nsrc(k)[:-5], pf.nsrc(v)[:-10]
+            ctx.check(kc == vc, 'R2', f'{m.rel}::{name}::{kc}.TYPE', f'a dictionary tagged {kc}.TYPE is rebuilt with {vc}.from_dict', m.path, k.lineno)
+            classes.append(kc)
+    else:
+        raise AnalysisError(f'{name}: dispatch table {table} has an unrecognised shape')
+    for c in classes:
+        covered[c] = tv.lineno
+    # is the freshly built object what is returned on every path?  A value read back from a module-level container is a memo.
+    fresh = calls[0]
+    rets = [r for r in ast.walk(fn) if isinstance(r, ast.Return)]
+    ctx.need(rets, f'{name}: no return')
+    by_name = {c.name: c for c in concrete}
+    for r in rets:
+        if r.value is fresh:
+            continue
+        ctx.need(isinstance(r.value, ast.Name), f'{name}: return value `{pf.nsrc(r.value)}` not recognised')
+        defs = [d for d in pf.assignments(fn).get(r.value.id, []) if isinstance(d, ast.AST)]
+        memo_reads = []
+        for d in defs:
+            d2 = d.value if isinstance(d, ast.Assign) else d
+            if d2 is fresh:
+                continue
+            if isinstance(d2, ast.Call) and isinstance(d2.func, ast.Attribute) and d2.func.attr == 'get' and isinstance(d2.func.value, ast.Name):
+                memo_reads.append((d2.func.value.id, d2.args[0]))
+            elif isinstance(d2, ast.Subscript) and isinstance(d2.value, ast.Name):
+                memo_reads.append((d2.value.id, d2.slice))
+            else:
+                raise AnalysisError(f'{name}: `{r.value.id}` may hold `{pf.nsrc(d2)[:50]}` (not understood)')
+        for cache, key in memo_reads:
+            key = pf.resolve_expr(fn, key)
+            kparts = key.elts if isinstance(key, ast.Tuple) else [key]
+            kkeys = set()
+            for kp in kparts:
+                kp = pf.resolve_expr(fn, kp)
+                dk = _data_key(kp, data)
+                if dk is None:
+                    raise AnalysisError(f'{name}: memo key part `{pf.nsrc(kp)}` is not a field of {data}')
+                kkeys.add(dk)
+            for cname in classes:
+                cls = by_name.get(cname)
+                if cls is None:
+                    continue
+                written = set(_written(ctx, m, cls))
+                missing = sorted(k for k in written - kkeys if k not in ('type', 'format_version'))
+                ctx.check(not missing, 'R2', f'{m.rel}::{name}::memo key covers {cname}', f'{name} returns objects memoised in `{cache}` under the key {sorted(kkeys)}, but a serialised {cname} also '
+                          f'carries {missing}: two records that differ only there (e.g. disk size, accelerator count) are reloaded as the same object and bill the same quantity',
+                          m.path, r.lineno)
+    return True
+
+
+def _chain_dispatcher(ctx: Ctx, m: pf.Module, fn: pf.FuncDef, name: str, data: str, tested_class, returned_class, covered: Dict[str, int]) -> None:
     pending: Optional[str] = None
     for st in fn.body:
         if isinstance(st, ast.Expr) and isinstance(st.value, ast.Constant):
@@ -370,6 +444,9 @@ def _check_dispatcher(ctx: Ctx, m: pf.Module, mic: pf.Module, name: str, concret
             covered[pending] = st.lineno  # type: ignore[index]
         else:
             raise AnalysisError(f'{name}: unrecognised statement `{short(pf.nsrc(st), 50)}`')
+
+
+def _dispatcher_tail(ctx: Ctx, m: pf.Module, mic: pf.Module, fn: pf.FuncDef, name: str, concrete: List[ast.ClassDef], covered: Dict[str, int]) -> None:
     names = {c.name for c in concrete}
     for c in concrete:
         ctx.check(c.name in covered, 'R2', f'{m.rel}::{name}::covers {c.name}',
